@@ -92,8 +92,9 @@ def build_var_cases(fmt, stride16):
             c.op('*', 'def_var', f=0, name='p%d' % mi, xtype=D.XT_NAME[X], dims=[0] if mi % 3 == 2 else [mi + 1])
         c.op('*', 'enddef', f=0)
         for mi, (M, vals) in enumerate(plan):
-            for api in ((None, 'flex') if mi % 3 == 0 else (None,)):
-                lp = c.op('*', 'put', f=0, form='vara', v=mi, s=[0], c=[len(vals)], coll=1, mem=M, api=api, vals=','.join(fmtv(x) for x in vals))
+            # typed call; flexible call with a contiguous buffer; flexible call with a strided (non-contiguous) buffer type
+            for api in ((None, 'flex') if mi % 3 == 0 else ((None, 'flexvec') if mi % 3 == 1 else (None,))):
+                lp = c.op('*', 'put', f=0, form='vara', v=mi, s=[0], c=[len(vals)], coll=1, mem=M, api='flex' if api else None, lay='vec:1:2' if api == 'flexvec' else None, vals=','.join(fmtv(x) for x in vals))
                 lg = c.op('*', 'get', f=0, form='vara', v=mi, s=[0], c=[len(vals)], coll=1, mem=D.XT_MEM[X])
                 ctx.append(('put', M, vals, lp, lg, api))
         c.op('*', 'close', f=0)
@@ -110,8 +111,16 @@ def build_var_cases(fmt, stride16):
         c.op('*', 'enddef', f=0)
         for mi, (M, vals) in enumerate(plan):
             lw = c.op('*', 'put', f=0, form='vara', v=mi, s=[0], c=[len(vals)], coll=1, mem=D.XT_MEM[X], vals=','.join(fmtv(x) for x in vals))
-            for api in ((None, 'flex') if mi % 3 == 1 else (None,)):
-                lg = c.op('*', 'get', f=0, form='vara', v=mi, s=[0], c=[len(vals)], coll=1, mem=M, api=api)
+            # typed get; flexible get into a contiguous buffer; flexible get into a strided buffer type (conversion staged in a
+            # temporary buffer and unpacked afterwards); nonblocking get into the strided type completed by wait_all
+            for api in ((None, 'flex') if mi % 3 == 1 else ((None, 'flexvec', 'iflexvec') if mi % 3 == 2 else (None, 'flexvec'))):
+                if api == 'iflexvec':
+                    c.op('*', 'get', f=0, form='vara', v=mi, s=[0], c=[len(vals)], mem=M, api='flex', lay='vec:1:2', nb='i', req=mi % 8)
+                    lwq = c.op('*', 'wait', f=0, ids=['q%d' % (mi % 8)], all=1)
+                    lg = c.op('*', 'rbuf', req=mi % 8)
+                    ctx.append(('iget', M, vals, lw, lg, api, lwq))
+                    continue
+                lg = c.op('*', 'get', f=0, form='vara', v=mi, s=[0], c=[len(vals)], coll=1, mem=M, api='flex' if api else None, lay='vec:1:2' if api == 'flexvec' else None)
                 ctx.append(('get', M, vals, lw, lg, api))
         c.op('*', 'close', f=0)
         cases.append((c, ctx, X, fmt))
@@ -197,7 +206,13 @@ def main(tier=None):
         if r.status != 'ok':
             ck.violation((r.status, 'conversion', first_frame(r.detail)), c.text()[:20000], c.name + ': ' + r.detail[:600]); continue
         xd = C.EXT[X]
-        for (direction, M, vals, l1, l2, api) in ctx:
+        for ent in ctx:
+            (direction, M, vals, l1, l2, api) = ent[:6]
+            iget_rc = None
+            if direction == 'iget':
+                w = r.r(0, ent[6]); stv = w.ints('st') or [w.rc]
+                iget_rc = stv[0] if stv[0] != 0 else w.rc
+                direction = 'get'
             md = C.MEM[M]
             exempt = fmt < 5 and X == D.NC_BYTE and M == 'uchar'
             o1 = r.r(0, l1); o2 = r.r(0, l2)
@@ -208,7 +223,7 @@ def main(tier=None):
                 if o2.rc != 0:
                     ck.violation(('rc', 'readback', obj), c.text()[:20000], '%s: natural-type read-back failed rc=%d' % (c.name, o2.rc)); continue
             else:
-                src, dst, rc, got, fills, bits = xd, md, o2.rc, o2.vals(), C.MEM_FILL[M], md[1]
+                src, dst, rc, got, fills, bits = xd, md, (o2.rc if iget_rc is None else iget_rc), o2.vals(), C.MEM_FILL[M], md[1]
                 if o1.rc != 0:
                     ck.violation(('rc', 'natural put', obj), c.text()[:20000], '%s: natural-type write of the source values failed rc=%d (mem %s)' % (c.name, o1.rc, M)); continue
             if direction == 'get' and o2.get('guard') not in (None, '0'):
@@ -227,7 +242,7 @@ def main(tier=None):
         if r.r(0, lg).vals() != [72, 105]: ck.violation(('value', 'text', 'round trip'), c.text(), c.name + ': text round trip gives %s' % r.r(0, lg).vals())
     ck.cov['distinct_nontrivial'] = len(pairs)
     ck.cov['element_conversions'] = nconv; ck.cov['bulk_calls'] = ck.cov['evaluations']; ck.cov['evaluations'] = nconv
-    ck.cov['rule'] = ('all numeric external types x 11 memory types x {put,get} x {variable, attribute (new in define mode, overwritten in data mode, re-read after reopen)} x {CDF-2, CDF-5} (thorough: + CDF-1); source values: all values of 8-bit types, %s values of 16-bit types, and for wider types the closed '
+    ck.cov['rule'] = ('all numeric external types x 11 memory types x {put,get} (typed, flexible contiguous, flexible with a strided buffer type, nonblocking strided get) x {variable, attribute (new in define mode, overwritten in data mode, re-read after reopen)} x {CDF-2, CDF-5} (thorough: + CDF-1); source values: all values of 8-bit types, %s values of 16-bit types, and for wider types the closed '
                       'boundary set (bounds of both types +-2, 0, +-1, 2^k and 2^k+-1 up to 2^64, fractional fringes, FLT_MAX and neighbours, DBL_MAX, subnormals, +-0.0, NaN, +-Inf); exact oracle with Python integers/fractions; '
                       'distinct_nontrivial = distinct (format, external type, memory type, direction, object) combinations' % ('all' if stride16 == 1 else 'every 2nd plus boundary'))
     ck.sample(allc[0][0].text()[:1500])
